@@ -73,8 +73,11 @@ func genC04(seed uint64, tier string) Scenario {
 	g := NewGen(seed, 0xC04)
 	s := &ProtoScenario{Prop: "C04", Config: genConfig(g), Scripts: map[int]Script{}}
 	// routing is not schedule-sensitive: keep the scheduler cheap most of the time
-	if g.Pct(60) {
+	if g.Pct(35) {
 		s.Config.YieldDensity = 0
+	} else if g.Pct(60) {
+		// routing state shared between connections shows only under statement-level preemption
+		s.Config.YieldDensity = 2 + g.IntN(2)
 	}
 	s.Service = genService(g, 1+g.IntN(4), "unix:@c04")
 	nClients := 1 + g.IntN(3)
